@@ -79,8 +79,16 @@ class CombinedModel(darsia.Model):
             # Analogously when only a subset of parameters is to be updated
             for pos_model, pos_parameter in dofs:
                 model = self.models[pos_model]
-                model.update_model_parameters(parameters_cache, pos_parameter)
-                parameters_cache = parameters_cache[model.num_parameters :]
+                # A single degree of freedom may be addressed by its name
+                if isinstance(pos_parameter, str) and pos_parameter != "all":
+                    pos_parameter = [pos_parameter]
+                num_used = model.update_model_parameters(
+                    parameters_cache, pos_parameter
+                )
+                # Remove the parameters used by the selected dofs from the cache
+                if num_used is None:
+                    num_used = model.num_parameters
+                parameters_cache = parameters_cache[num_used:]
 
     def __getitem__(self, pos_model: int) -> darsia.Model:
         """Access single models.
